@@ -53,6 +53,21 @@ M = [
   '\treturn protoreflect.ValueOfBytes(append([]byte{}, v.Bytes()...))\n', '\treturn v\n'),
  ('c14-protodelim-alias', 'encoding/protodelim/protodelim.go',
   '\tif err := o.Unmarshal(b, m); err != nil {', '\to.UnmarshalOptions.Merge = o.UnmarshalOptions.Merge\n\tif err := (protoAlias{o.UnmarshalOptions}).unmarshal(b, m); err != nil {'),
+ # ---- C33
+ ('c33-pkg-conflict-ignored', 'reflect/protoregistry/registry.go',
+  '\t\tcase nil, *packageDescriptor:\n\t\tdefault:\n', '\t\tcase nil, *packageDescriptor, protoreflect.EnumValueDescriptor:\n\t\tdefault:\n'),
+ ('c33-insert-before-check', 'reflect/protoregistry/registry.go',
+  '\tvar err error\n\tvar hasConflict bool\n\trangeTopLevelDescriptors(file, func(d protoreflect.Descriptor) {\n\t\tif prev := r.descsByName[d.FullName()]; prev != nil {',
+  '\tvar err error\n\tvar hasConflict bool\n\trangeTopLevelDescriptors(file, func(d protoreflect.Descriptor) {\n\t\tif prev := r.descsByName[d.FullName()]; prev == nil {\n\t\t\tr.descsByName[d.FullName()] = d\n\t\t} else {'),
+ ('c33-numfiles-not-counted', 'reflect/protoregistry/registry.go',
+  '\tr.filesByPath[path] = append(r.filesByPath[path], file)\n\tr.numFiles++\n', '\tr.filesByPath[path] = append(r.filesByPath[path], file)\n\tif len(r.filesByPath) > r.numFiles {\n\t\tr.numFiles = len(r.filesByPath)\n\t}\n'),
+ ('c33-find-no-rlock', 'reflect/protoregistry/registry.go',
+  'func (r *Types) FindExtensionByNumber(message protoreflect.FullName, field protoreflect.FieldNumber) (protoreflect.ExtensionType, error) {\n\tif r == nil {\n\t\treturn nil, NotFound\n\t}\n\tif r == GlobalTypes {\n\t\tglobalMutex.RLock()\n\t\tdefer globalMutex.RUnlock()\n\t}\n',
+  'func (r *Types) FindExtensionByNumber(message protoreflect.FullName, field protoreflect.FieldNumber) (protoreflect.ExtensionType, error) {\n\tif r == nil {\n\t\treturn nil, NotFound\n\t}\n'),
+ ('c33-extnum-conflict-dropped', 'reflect/protoregistry/registry.go',
+  '\tif prev := r.extensionsByMessage[message][field]; prev != nil {', '\tif prev := r.extensionsByMessage[message][field]; prev != nil && prev == xt {'),
+ ('c33-nested-enumvalue-missed', 'reflect/protoregistry/registry.go',
+  '\t\tfor i := md.Enums().Len() - 1; i >= 0; i-- {', '\t\tfor i := md.Enums().Len() - 1; i > 0; i-- {'),
  # ---- C27
  ('c27-eof-inside-size', 'encoding/protodelim/protodelim.go',
   'if err == io.EOF && i != 0 {', 'if err == io.EOF && i < 0 {'),
